@@ -7,6 +7,21 @@ import argparse, importlib, os, sys, traceback, json
 sys.path.insert(0, os.path.dirname(os.path.dirname(os.path.abspath(__file__))))
 from vlib import core
 
+def selftests(rep, seed, done):
+    """soundness regression suite of the symbolic executor / cross-check of the symbolic numpy lifting (whichever front end the property module uses)"""
+    if 'vlib.pyvc' in sys.modules and 'pyvc' not in done:
+        done.add('pyvc')
+        from vlib import selftest
+        ok, nc, no, probs, dt = selftest.run()
+        rep.extra['engine_selftest'] = dict(programs=nc, obligations=no, ok=ok, seconds=round(dt, 2), problems=probs[:5])
+        if not ok: rep.errors.append('engine self-test failed (vlib/selftest.py): ' + '; '.join(probs[:3]))
+    if 'vlib.symnp' in sys.modules and 'symnp' not in done:
+        done.add('symnp')
+        from vlib import symnp_selftest
+        ok, n, probs, dt = symnp_selftest.run(seed)
+        rep.extra['symnp_crosscheck'] = dict(comparisons=n, ok=ok, seconds=round(dt, 2), problems=probs[:5])
+        if not ok: rep.errors.append('symbolic-numpy cross-check failed (vlib/symnp_selftest.py): ' + '; '.join(probs[:3]))
+
 def main():
     ap = argparse.ArgumentParser()
     ap.add_argument('prop'); ap.add_argument('--tier', default=os.environ.get('VERIF_TIER', 'quick'), choices=['quick', 'thorough'])
@@ -20,19 +35,9 @@ def main():
     if a.update_lock: os.environ['VERIF_UPDATE_LOCK'] = '1'
     rep = core.Report(a.prop, a.tier, seed, level=getattr(mod, 'LEVEL', 'proof'))
     try:
-        if 'vlib.pyvc' in sys.modules:
-            # soundness regression suite of the symbolic executor (vlib/selftest.py): false clauses, each violated natively, must not be proved
-            from vlib import selftest
-            ok, nc, no, probs, dt = selftest.run()
-            rep.extra['engine_selftest'] = dict(programs=nc, obligations=no, ok=ok, seconds=round(dt, 2), problems=probs[:5])
-            if not ok: rep.errors.append('engine self-test failed (vlib/selftest.py): ' + '; '.join(probs[:3]))
-        if 'vlib.symnp' in sys.modules:
-            # cross-check of the symbolic numpy lifting against numpy itself on concrete operands (vlib/symnp_selftest.py)
-            from vlib import symnp_selftest
-            ok, n, probs, dt = symnp_selftest.run(seed)
-            rep.extra['symnp_crosscheck'] = dict(comparisons=n, ok=ok, seconds=round(dt, 2), problems=probs[:5])
-            if not ok: rep.errors.append('symbolic-numpy cross-check failed (vlib/symnp_selftest.py): ' + '; '.join(probs[:3]))
+        done = set(); selftests(rep, seed, done)
         mod.run(rep)
+        selftests(rep, seed, done)          # front ends imported lazily by the property module
     except Exception:
         traceback.print_exc()
         rep.errors.append('engine crash: ' + traceback.format_exc().strip().splitlines()[-1])
